@@ -456,8 +456,9 @@ func posScenarios(id, tier string) []Scenario {
 	}
 	switch id {
 	case "C02", "C04":
+		// (thorough bounds are sized so that the whole tier finishes well inside its deadline on 16 cores)
 		k, d := kd(2, 4, 3, 4)
-		k2, d2 := kd(2, 3, 3, 4)
+		k2, d2 := kd(2, 3, 3, 3)
 		return fromStates([]Scenario{
 			{Name: "2val-rich", Cfg: baseCfg(), Alphabet: richAlphabet(), K: k, D: d, Tail: 1},
 			{Name: "3val-equal-max2", Cfg: cfg3equal(), Alphabet: append(stakingAlphabet(), setAlphabet()...), K: k2, D: d2, Tail: 1},
@@ -468,7 +469,7 @@ func posScenarios(id, tier string) []Scenario {
 		}, bigStake(), stakingAlphabet(), k2, d2, "k0-jailed", "k0-unstaking", "k0-unstaking-jailed")
 	case "C05":
 		k, d := kd(2, 4, 3, 4)
-		k2, d2 := kd(2, 3, 3, 4)
+		k2, d2 := kd(2, 3, 3, 3)
 		return fromStates(fromStates([]Scenario{
 			{Name: "2val", Cfg: baseCfg(), Alphabet: richAlphabet(), K: k2, D: d2, Tail: 1},
 			{Name: "3val-equal-max2", Cfg: cfg3equal(), Alphabet: setAlphabet(), K: k, D: d, Tail: 1},
@@ -479,8 +480,8 @@ func posScenarios(id, tier string) []Scenario {
 			{Name: "3val-jail-fast", Cfg: cfgJailFast(), Alphabet: jailFastAlphabet(), K: k2, D: d2, Tail: 1},
 		}, bigStake(), richAlphabet(), k2, d2, "k0-jailed", "k0-unstaking", "k2-joined-k0-jailed"), baseCfg(), stakingAlphabet(), k2, d2, "k0-slashed-half")
 	case "C06":
-		k, d := kd(3, 4, 4, 5)
-		k2, d2 := kd(2, 4, 3, 4)
+		k, d := kd(3, 4, 4, 4)
+		k2, d2 := kd(2, 4, 3, 3)
 		return fromStates([]Scenario{
 			{Name: "lifecycle", Cfg: baseCfg(), Alphabet: lifecycleAlphabet(), K: k, D: d, Tail: 1},
 			{Name: "2val-rich", Cfg: baseCfg(), Alphabet: richAlphabet(), K: k2, D: d2, Tail: 1},
@@ -491,8 +492,8 @@ func posScenarios(id, tier string) []Scenario {
 		var scs []Scenario
 		for i, c := range c07cfgs() {
 			kk := k
-			if i >= 5 && !th {
-				kk = 1 // the extreme-fraction configurations: single deviations in the quick tier
+			if i >= 5 {
+				kk = k - 1 // the extreme-fraction configurations: one deviation less
 			}
 			scs = append(scs, Scenario{Name: fmt.Sprintf("slash-stake=%d-fdouble=%s-fdown=%s", c.Vals[0].Stake, c.Pos.SlashDoubleStr, c.Pos.SlashDowntimeStr), Cfg: c, Alphabet: slashAlphabet(), K: kk, D: d, Tail: 1})
 		}
@@ -507,7 +508,7 @@ func posScenarios(id, tier string) []Scenario {
 		pb := *bs.Pos
 		pb.SlashDoubleStr, pb.SlashDowntimeStr = "0.333333333333333333", "0.010000000000000001"
 		bs.Pos = &pb
-		return fromStates(scs, bs, slashAlphabet(), k, d, "k0-jailed", "k0-unstaking", "k0-unstaking-jailed")
+		return fromStates(scs, bs, slashAlphabet(), 2, d, "k0-jailed", "k0-unstaking", "k0-unstaking-jailed")
 	case "C08":
 		var scs []Scenario
 		miss := []Choice{{Label: "M", Block: chain.Block{Missed: []int{0}}}}
@@ -544,7 +545,7 @@ func posScenarios(id, tier string) []Scenario {
 		k, d := kd(3, 5, 4, 6)
 		scs = append(scs, Scenario{Name: "interleaved-W=2", Cfg: windowCfg(2, 1, 2, 2*min), Alphabet: inter, K: k, D: d, Tail: 1})
 		scs = append(scs, Scenario{Name: "interleaved-W=3", Cfg: windowCfg(3, 1, 2, 2*min), Alphabet: inter, K: k, D: d, Tail: 1})
-		kf, df := kd(2, 4, 4, 5)
+		kf, df := kd(2, 4, 3, 5)
 		scs = fromStates(scs, bigStake(), inter, kf, df, "k0-jailed", "k0-unstaking", "k2-joined-k0-jailed")
 		scs = fromStates(scs, windowCfg(3, 1, 2, 2*min), inter, kf, df, "k0-removed-with-misses")
 		// a window of more than 255 blocks (the ring index no longer fits one byte): k0 misses the
@@ -558,7 +559,7 @@ func posScenarios(id, tier string) []Scenario {
 		scs = append(scs, Scenario{Name: "window-300-after-300-misses", Cfg: lw, Prelude: pre, Alphabet: inter, K: 2, D: 2, Tail: 1})
 		return scs
 	case "C09":
-		k, d := kd(3, 4, 4, 5)
+		k, d := kd(3, 4, 3, 5)
 		var scs []Scenario
 		for _, c := range c09cfgs() {
 			scs = append(scs, Scenario{Name: fmt.Sprintf("jail-stake=%d", c.Vals[0].Stake), Cfg: c, Alphabet: jailAlphabet(), K: k, D: d, Tail: 1})
